@@ -37,6 +37,7 @@ import (
 
 	"github.com/lugu/qiloop/bus"
 	"github.com/lugu/qiloop/bus/net"
+	"qv/internal/hx"
 	"qv/internal/rig"
 )
 
@@ -45,6 +46,7 @@ type c13mid struct {
 	sid2   uint32     // a second service of the same server
 	nextID uint32
 	failed bool
+	placed []string // for the replay text of a failing schedule: which emissions ran inside which request
 }
 
 func (m *c13mid) id() uint32 { m.nextID++; return m.nextID }
@@ -209,7 +211,15 @@ func (w *c13world) mboxMid(c int, inside func()) bool {
 		w.lab("LMbox %d", c)
 	}
 	if placed {
+		ne := len(w.emits)
 		inside()
+		what := "registerEvent (addSignalUser: after the id check, before the entry is appended)"
+		if req.Hdr.Action == 1 {
+			what = "unregisterEvent (removeSignalUser: after the entry was removed, before RemoveHandler)"
+		}
+		for _, e := range w.emits[ne:] {
+			m.placed = append(m.placed, fmt.Sprintf("emission %d of signal %d ran from snapshot to last send while the object's mailbox goroutine was inside the %s call %d of connection %d, waiting for the endpoint's handler table", e.p, e.sig, what, req.Hdr.ID, c))
+		}
 	}
 	// (6) everything goes on
 	cl.c.Down.SetBlockIf(func(f rig.Frame) bool { return f.Head && f.Hdr.Service == sid })
@@ -256,6 +266,16 @@ func (w *c13world) emitWhole(sig, p uint32) {
 	for i := 0; w.emitBusy && i < 64; i++ {
 		w.emitSend()
 	}
+}
+
+// c13midMaybe: one time in three the request that connection c has just sent is processed with an emission inside.
+func c13midMaybe(rng *hx.Rng, w *c13world, c, nsig int, payload *uint32) {
+	if rng.Intn(3) != 0 || !w.midOK(c) {
+		return
+	}
+	*payload++
+	sig, p := c13sigs[rng.Intn(nsig)], c13sized(rng, *payload)
+	w.mboxMid(c, func() { w.emitWhole(sig, p) })
 }
 
 // ---- scripted schedules ----
